@@ -145,7 +145,8 @@ theorem success_implies_identical_bytes_by_sequence_partial (H : List UInt8 → 
 /-! ## The fault-free run -/
 
 /-- **The fault-free run succeeds — in full**, for every file content and size (no bound on the number of blocks: the
-16-bit counters of both jobs wrap together) and every negotiated block size (`0 < bsS ≤ bsR`), with or without an
+16-bit counters of both jobs wrap together) and every NEGOTIATED block size (hypothesis `0 < bsS ≤ bsR`: the receiver
+accepts the sender's block size; otherwise see `refused_block_size_fails_on_both_sides`), with or without an
 announced hash, into a receiving device that takes what it is given (`init`): after `data.length + 2` faithful deliveries (enough for `<open/>`, every block and `<close/>`) both
 jobs report success, the receiver holds exactly the file and nothing is left in the channel.
 (Before repo commit 49cbe2e this was false from 65537 blocks on; the witness — block size 1, 65537 bytes — is the
@@ -159,6 +160,24 @@ theorem honest_run_succeeds (H : List UInt8 → List UInt8) (bsS bsR : Nat) (dat
   intro h hh
   cases withHash <;> simp at hh
   exact hh
+
+/-- **A block size the receiver does not accept is not negotiated: the transfer fails on both sides.**  The hypothesis
+`bsS ≤ bsR` of `honest_run_succeeds` is exactly "the block size was negotiated": when the sender's block size exceeds
+the receiving manager's, `<open/>` is answered with `<resource-constraint/>`; the sending job does not retry with a
+smaller size but sends `<close/>` and ends with `ProtocolError`, and the receiving job (still in `StartState`) ends
+with `FileCorruptError` at that `<close/>` — for every non-empty file with its size announced. -/
+theorem refused_block_size_fails_on_both_sides (H : List UInt8 → List UInt8) (bsS bsR : Nat) (hash : Option (List UInt8))
+    (data : List UInt8) (hgt : bsR < bsS) (hd : data ≠ []) :
+    let st := (run H (init bsS bsR data.length hash data) (honest 2)).1
+    st.s.state = .finished ∧ st.s.error = .protocol ∧ st.r.state = .finished ∧ st.r.error = .corrupt ∧ st.pending = none := by
+  have hcf : ∀ r : Recv, r.size = data.length → r.fedRev = [] → r.checkFails H = true := by
+    intro r e1 e3
+    simp [Recv.checkFails, Recv.fed, e1, e3, hd]
+    left
+    intro h0
+    exact hd (List.eq_nil_of_length_eq_zero h0.symm)
+  simp [honest, run, step, deliverStanza, init, initDev, toR, feed, recv, sender, hgt, Send.terminate, Recv.checkData, hcf,
+    Recv.terminate]
 
 /-! ## Faults -/
 
